@@ -118,8 +118,24 @@ def rlongstr(rnd, big=False):
     return rstr_bytes(rnd, n)
 
 
+REAL_KEYS = ['x-message-ttl', 'x-expires', 'x-max-length',
+             'x-max-length-bytes', 'x-dead-letter-exchange',
+             'x-dead-letter-routing-key', 'x-max-priority', 'x-queue-type',
+             'x-queue-mode', 'x-match', 'x-death', 'x-first-death-reason',
+             'x-stream-offset', 'x-priority', 'x-cancel-on-ha-failover',
+             'alternate-exchange', 'product', 'version', 'platform',
+             'capabilities', 'information', 'copyright', 'cluster_name',
+             'authentication_failure_close', 'consumer_cancel_notify',
+             'publisher_confirms', 'exchange_exchange_bindings',
+             'basic.nack', 'connection.blocked', 'per_consumer_qos',
+             'direct_reply_to', 'count', 'reason', 'queue', 'time',
+             'exchange', 'routing-keys', 'x', 'X-ttl', 'x_ttl', 'ax-', 'x-']
+
+
 def rkey(rnd):
     """Table key: <=128 characters and <=255 UTF-8 bytes."""
+    if rnd.random() < 0.12:
+        return rnd.choice(REAL_KEYS)
     k = rnd.random()
     if k < 0.08:
         return ''
